@@ -282,9 +282,15 @@ func TestEndToEndRequired(t *testing.T) {
 		}
 		// qualifier arguments would not matter for an absent name; keep them
 		tag := ts.render()
-		typ := reflect.StructOf([]reflect.StructField{{Name: "F", Type: reflect.TypeOf((*zoo.IAll)(nil)).Elem(), Tag: quoteTag("wire", tag)}})
+		dc := kit.DrawDecoys(t) // neighbouring fields of other tag kinds must not matter
+		typ := reflect.StructOf(dc.Around(reflect.StructField{Name: "F", Type: reflect.TypeOf((*zoo.IAll)(nil)).Elem(), Tag: quoteTag("wire", tag)}))
 		obj := reflect.New(typ)
 		out := kit.RunApp(app.SetComponents(obj.Interface(), zoo.ProviderKinds[0].New(&zoo.Beh{})))
+		if out.OK() {
+			if err := dc.Check(obj); err != nil {
+				t.Fatalf("C19: %v%s", err, dc)
+			}
+		}
 		if out.Panic != nil {
 			t.Fatalf("C19: start-up panicked for tag %q: %v", tag, out.Panic)
 		}
@@ -292,7 +298,7 @@ func TestEndToEndRequired(t *testing.T) {
 			if out.Err != nil {
 				t.Fatalf("C19: tag %q carries an explicit required=false, start-up must not fail: %v", tag, out)
 			}
-			if !obj.Elem().Field(0).IsNil() {
+			if !obj.Elem().FieldByName("F").IsNil() {
 				t.Fatalf("C19: tag %q: optional unsatisfied point was populated", tag)
 			}
 		} else if out.Err == nil {
@@ -329,7 +335,8 @@ func TestEndToEndProp(t *testing.T) {
 		ts.Args = args
 		ts.Value = "c19.list:[" + strings.Join(parts, ",") + "]"
 		tag := ts.render()
-		typ := reflect.StructOf([]reflect.StructField{{Name: "F", Type: reflect.TypeOf([]int(nil)), Tag: quoteTag("prop", tag)}})
+		dc := kit.DrawDecoys(t) // neighbouring fields of other tag kinds must not matter
+		typ := reflect.StructOf(dc.Around(reflect.StructField{Name: "F", Type: reflect.TypeOf([]int(nil)), Tag: quoteTag("prop", tag)}))
 		obj := reflect.New(typ)
 		cfg := "c19:\n  other: 1\n"
 		want := nums
@@ -338,10 +345,15 @@ func TestEndToEndProp(t *testing.T) {
 			want = []int{7, 8}
 		}
 		out := kit.RunApp(app.SetComponents(obj.Interface()), app.SetConfigLoader(loader.NewRawLoader([]byte(cfg))))
+		if out.OK() {
+			if err := dc.Check(obj); err != nil {
+				t.Fatalf("C19: %v%s", err, dc)
+			}
+		}
 		if !out.OK() {
 			t.Fatalf("C19: prop:%q failed: %v", tag, out)
 		}
-		got := obj.Elem().Field(0).Interface().([]int)
+		got := obj.Elem().FieldByName("F").Interface().([]int)
 		if !reflect.DeepEqual(got, want) {
 			t.Fatalf("C19: prop:%q bound %v, want %v (bracketed default must not be split, arguments must not leak into the key)", tag, got, want)
 		}
@@ -475,9 +487,15 @@ func TestEndToEndPropEmptyKey(t *testing.T) {
 		ts.Args = args
 		ts.Value = ""
 		tag := ts.render()
-		typ := reflect.StructOf([]reflect.StructField{{Name: "F", Type: reflect.TypeOf(map[string]any(nil)), Tag: quoteTag("prop", tag)}})
+		dc := kit.DrawDecoys(t) // neighbouring fields of other tag kinds must not matter
+		typ := reflect.StructOf(dc.Around(reflect.StructField{Name: "F", Type: reflect.TypeOf(map[string]any(nil)), Tag: quoteTag("prop", tag)}))
 		obj := reflect.New(typ)
 		out := kit.RunApp(app.SetComponents(obj.Interface())) // no configuration at all: the root is empty
+		if out.OK() {
+			if err := dc.Check(obj); err != nil {
+				t.Fatalf("C19: %v%s", err, dc)
+			}
+		}
 		if out.Panic != nil {
 			t.Fatalf("C19: prop:%q panicked: %v", tag, out.Panic)
 		}
@@ -547,15 +565,21 @@ func TestEndToEndDataIsNotTagText(t *testing.T) {
 		if strings.HasPrefix(ts.Value, "pre-") {
 			want = "pre-" + text + "-dflt"
 		}
-		typ := reflect.StructOf([]reflect.StructField{{Name: "F", Type: reflect.TypeOf(""), Tag: quoteTag(tagKey, tag)}})
+		dc := kit.DrawDecoys(t) // neighbouring fields of other tag kinds must not matter
+		typ := reflect.StructOf(dc.Around(reflect.StructField{Name: "F", Type: reflect.TypeOf(""), Tag: quoteTag(tagKey, tag)}))
 		obj := reflect.New(typ)
 		doc, _ := yaml.Marshal(map[string]any{"c19": map[string]any{"text": text, "other": 1}})
 		spy := &argSpy{}
 		out := kit.RunApp(app.SetComponents(obj.Interface(), spy), app.SetConfigLoader(loader.NewRawLoader(doc)))
+		if out.OK() {
+			if err := dc.Check(obj); err != nil {
+				t.Fatalf("C19: %v%s", err, dc)
+			}
+		}
 		if !out.OK() {
 			t.Fatalf("C19: %s:%q with c19.text=%q failed: %v", tagKey, tag, text, out)
 		}
-		if got := obj.Elem().Field(0).String(); got != want {
+		if got := obj.Elem().FieldByName("F").String(); got != want {
 			t.Fatalf("C19: %s:%q with c19.text=%q bound %q, want %q (configured text is data: it is not split at commas)", tagKey, tag, text, got, want)
 		}
 		if !spy.seen {
